@@ -130,9 +130,14 @@ def check(ctx):
         if hung:
             import p_c14
             for (c, cfg) in hung:
-                r = p_c14.classify_programs(ctx, hb, [c.hex()], limits=list(cfg))
-                if r and r[0]["outcome"] == "UBudget" and r[0]["code"] == 50:
-                    k2.add((c, cfg))
+                # whether the loop is entered can depend on the iteration order (the analysis ran in the process's own hash
+                # order): the judgement set is classified under every forced order in which unification does not halt
+                for order in ("sorted", "sortedrev") + tuple("seed:%d" % i for i in range(1, 13)):
+                    r = p_c14.classify_programs(ctx, hb, [c.hex()], order=order, limits=list(cfg))
+                    if r and r[0]["outcome"] == "UBudget":
+                        if r[0]["code"] == 50:
+                            k2.add((c, cfg))
+                        break
         ctx.coverage["unification_did_not_halt"] = {"total": len(hung), "inside_known_class_K2": len(k2)}
         for (c, cfg), l in zip(keys, aout):
             f = l.split(" ")
